@@ -225,6 +225,14 @@ def document(input_file: str, settings: Settings):
                 if spec.match_file(os.path.join(root, file)):
                     filenames.remove(file)
 
+            # os.walk() yields symbolic links to directories among the subdirs
+            # even when it is not going to follow them, so they would be listed
+            # in the toctree without ever being documented
+            if not settings.input.follow_symlinks:
+                for subdir in copy.copy(subdirs):
+                    if os.path.islink(os.path.join(root, subdir)):
+                        subdirs.remove(subdir)
+
             # Check subdirs and files to make sure .cmake files
             # are present, if not then ignore
             if settings.input.auto_exclude_directories_without_cmake:
